@@ -2463,3 +2463,96 @@ func H_C06_dynamicForkError(n, fork, part int) {
 	verifAssert(fqname == md.fqname, "C06: the reported error names the failing job, also for forks created while mrp was running")
 	verifAssert(kind == Errors && len(paths) > 0 && paths[0] == md.MetadataFilePath(Errors), "C06: the reported error points at the failing job's _errors file")
 }
+
+const vrErrSrc = `
+stage GEN(
+    out int a,
+    out int b,
+    out int c,
+    src comp "g",
+)
+
+stage USE(
+    in  int a,
+    in  int b,
+    in  int c,
+    out int r,
+    src comp "u",
+)
+
+pipeline P(
+    out int r,
+)
+{
+    call GEN()
+
+    call USE(
+        a = GEN.a,
+        b = GEN.b,
+        c = GEN.c,
+    )
+
+    return (
+        r = USE.r,
+    )
+}
+
+call P()
+`
+
+func vrErrGraph() *vrReal {
+	disableUniquification = false
+	return verifCached("vrErrGraph", func() any {
+		rt := &Runtime{Config: &RuntimeOptions{JobMode: "local", VdrMode: VdrDisable}, mrjob: "/m/mrjob", adaptersPath: "/m/adapters"}
+		_, _, ps, err := rt.instantiatePipeline([]byte(vrErrSrc), "/m/p.mro", "ps", "/ps", nil, "none", nil, false, true, context.Background())
+		if err != nil {
+			panic("fixture does not instantiate: " + err.Error())
+		}
+		n := func(name string) *Node { return ps.node.top.allNodes["ID.ps.P."+name] }
+		return &vrReal{ps, n("GEN"), n("USE"), nil}
+	}).(*vrReal)
+}
+
+// H_C10_resolveErrors: the producer of three inputs of a stage left outputs in
+// which an arbitrary subset of the three is missing; the consumer's arguments
+// are resolved under four map iteration orders (insertion, reverse, ascending
+// and descending by key).
+//
+//	C10: the error recorded for the consumer (written to its _errors or alarm
+//	     file by writeInvocation) is the same text under every order.
+func H_C10_resolveErrors() {
+	w := vrErrGraph()
+	use := w.work
+	outs := LazyArgumentMap{}
+	missing := 0
+	for _, k := range []string{"a", "b", "c"} {
+		if verifBool("output present") {
+			outs[k] = json.RawMessage("1")
+		} else {
+			missing++
+		}
+	}
+	vrOuts = map[*Metadata]LazyArgumentMap{w.gen.forks[0].metadata: outs}
+	render := func() string {
+		_, _, err := use.resolveInputs(use.forks[0].forkId, false)
+		if err == nil {
+			return "<nil>"
+		}
+		return err.Error()
+	}
+	verifReverseMapOrder(false)
+	a := render()
+	verifReverseMapOrder(true)
+	b := render()
+	verifReverseMapOrder(false)
+	verifKeyMapOrder(1)
+	c := render()
+	verifKeyMapOrder(-1)
+	d := render()
+	verifKeyMapOrder(0)
+	verifCover("arguments resolved under four map orders")
+	if missing >= 2 && a != "<nil>" {
+		verifCover("several parameters failed to resolve")
+	}
+	verifAssert(a == b && a == c && a == d, "C10: the error recorded when several parameters fail to resolve does not depend on map iteration order (ghost)")
+}
